@@ -15,6 +15,8 @@ THEOREMS = [
     (NS + "C05_fragment_expiry_witness", "witness"),
     (NS + "C05_fragments_delivered_without_expiry", "witness"),
 ]
+# secondary tie (DESIGN 4.2): kernels regenerated from the source on every run, proved equal to the model (Props/Equiv<Group>.lean)
+EQUIV = {"Frag": ["Mpgs.Equiv.gen_split_loop", "Mpgs.Equiv.gen_split"]}
 ASSUMPTIONS = [
     "safety half (C05_never_dropped, for every history without disconnect): a guaranteed single-datagram message stays queued, or parked under "
     "a datagram that still awaits its ack/time-out, or reported delivered - under FreshAlong (the datagram number a build takes is not the key "
